@@ -44,6 +44,9 @@ def coherent(chk, repo, clause):
 def run(chk, repo, tier):
     from .common import no_hidden_state
     no_hidden_state(chk, repo, 'C03')
+    chk.clause('C03-o', 'combining segment fields leaves the fields of the wavefront untouched', 4)
+    from .common import operands_untouched
+    operands_untouched(chk, repo, 'C03-o', ['field.merge', 'field.reduce', 'wavefront.Wavefront.field', 'wavefront.Wavefront.intensity', 'plane.Plane.multiply'], allow=[])
     chk.clause('C03-a', 'modulus only after coherent combination (reduce before |.|^2)', 2)
     chk.clause('C03-b', 'merge adds complex data; the complex field inserts with intensity=False', 2)
     chk.clause('C03-c', 'reduce merges every transitively overlapping group of fields (group extents kept up to date)', 4)
@@ -53,6 +56,9 @@ def run(chk, repo, tier):
     chk.clause('C03-f', 'the mask is a multiplicative factor of every segment phasor on every path', 4)
     chk.clause('C03-g', 'sub-array offsets reach the transform', 3)
     chk.clause('C03-i', 'the slice cache holds one bounding slice per (segment) mask', 2)
+    chk.clause('C03-j', 'resampling treats the segment masks exactly like the global mask', 1)
+    from .c17 import mask_rescale_siblings
+    mask_rescale_siblings(chk, repo, 'C03-j')
     chk.not_decided += ['numerical equality of segmented and monolithic results']
 
     coherent(chk, repo, 'C03-a')
